@@ -144,6 +144,33 @@ Definition construct_of (dialect : str) (a : rexpr) : option construct :=
 Lemma case_holes_ok n i : forallb (fun p => skel_edge skel_ok (fst p) (snd p) 0) (case_holes n i) = true.
 Proof. revert i; induction n; intros i; cbn; auto. Qed.
 
+(* process_concat: the `||` chain and the CONCAT( ) call are skeletons of the engine grammar, whatever the arity *)
+Lemma concat_chain_top acc i n : top_is_hole acc = false -> top_is_hole (concat_chain acc i n) = false.
+Proof. revert acc i; induction n as [|k IH]; intros acc i H; cbn [concat_chain]; [exact H|]. apply IH. reflexivity. Qed.
+Lemma concat_chain_skel n : forall acc i,
+  (is_hole acc = true \/ (skel_ok acc = true /\ elreq SConcat <= estrength acc)) ->
+  skel_ok (concat_chain acc i n) = true.
+Proof.
+  induction n as [|k IH]; intros acc i H; cbn [concat_chain].
+  - destruct H as [H|[H _]]; [|exact H]. destruct acc as [[?|? ? ? ?]|? ? ? ? ?|? ? ?|? ?]; try discriminate; reflexivity.
+  - apply IH. right. split; [|cbn; lia].
+    assert (E : skel_edge skel_ok 0 acc (elreq SConcat) = true).
+    { unfold skel_edge. destruct H as [H|[H1 H2]].
+      - destruct acc as [[?|? ? ? ?]|? ? ? ? ?|? ? ?|? ?]; try discriminate; reflexivity.
+      - apply Nat.leb_le in H2. destruct acc as [[?|? ? ? ?]|? ? ? ? ?|? ? ?|? ?]; try reflexivity; rewrite H1, H2; reflexivity. }
+    change (skel_edge skel_ok 0 acc (elreq SConcat) && skel_edge skel_ok 0 (hole i 0 false A_Both) (erreq SConcat) = true).
+    rewrite E. reflexivity.
+Qed.
+Lemma c_concat_ok has_fn n : 2 <= n ->
+  skel_ok (c_sk (c_concat has_fn n)) = true /\ top_is_hole (c_sk (c_concat has_fn n)) = false.
+Proof.
+  intros Hn. unfold c_concat. destruct has_fn; cbn [c_sk].
+  - split; [|reflexivity]. cbn [skel_ok]. apply case_holes_ok.
+  - destruct n as [|[|k]]; try lia. cbn [pred concat_chain]. split.
+    + apply concat_chain_skel. right. split; [reflexivity|cbn; lia].
+    + apply concat_chain_top. reflexivity.
+Qed.
+
 Lemma find_some_in {A} (f : A -> bool) l x : find f l = Some x -> In x l.
 Proof. intros H. apply find_some in H. tauto. Qed.
 
@@ -192,7 +219,10 @@ Proof.
     destruct args0 as [|a [|b [|x t]]]; try (apply TT; exact H).
     destruct (c_binary o) eqn:Cb; [|discriminate]. cbn in H. inversion H; subst. eapply BI; eauto. }
   destruct r as [i|l|name rargs|cs]; cbn [select]; try discriminate.
-  - destruct (leqb name n_eq || leqb name n_ne).
+  - destruct (leqb name n_concat).
+    { destruct (Nat.leb_spec 2 (length (concat_args (ROp name rargs)))) as [L|L]; [|discriminate].
+      intros E; inversion E; subst. apply c_concat_ok. exact L. }
+    destruct (leqb name n_eq || leqb name n_ne).
     + destruct rargs as [|a [|b [|x t]]];
         try (intros E; exact (GEN name _ _ _ E)).
       destruct (is_null a || is_null b); [|intros E; exact (GEN name [a; b] _ _ E)].
